@@ -152,7 +152,7 @@ impl Prop for C14 {
         let sequence = c.cfg.raw || !dom.has_elem("table");
         if sequence {
             for (name, start, _end) in with_text.iter().map(|x| (&x.0, x.1, x.2)) {
-                if want_names.iter().filter(|g| **g == name.as_str()).count() != 1 {
+                if all_names.iter().filter(|g| **g == name.as_str()).count() != 1 {
                     continue;
                 }
                 if let Some((_, at)) = got.iter().find(|g| &g.0 == name) {
